@@ -26,6 +26,7 @@ import Rtp.Model.VP8
 import Rtp.Model.VP9
 import Rtp.Model.H264
 import Rtp.Pred.C10
+import Rtp.Pred.C12
 namespace Rtp.Model.Pipeline
 open Rtp Rtp.Model
 
@@ -216,6 +217,23 @@ def h264Nals (frames : List H264Frame) : List Bytes := frames.flatMap (fun fr =>
     start code (Annex-B) or a 4-byte length (AVC) -/
 def h264Expected (disable avc : Bool) (frames : List H264Frame) : Bytes :=
   Spec.Rfc6184.frame avc (Spec.Rfc6184.delivered disable (h264Nals frames))
+
+/-! ### VP9 frames with the description of their uncompressed header (the form C12 quantifies over
+    in non-flexible mode, where the payloader reads the header) -/
+
+/-- one VP9 frame handed to `Packetize`; `desc` = the header description the frame starts with
+    (`none`: nothing is claimed about the header — enough in flexible mode) -/
+structure VP9Frame where
+  frame : Bytes
+  desc : Option Spec.Vp9Bits.Hdr := none
+  samples : UInt32 := 0
+  now : Int64 := 0
+
+namespace VP9Frame
+/-- the call of C12 that hands this frame to a payloader with MTU `B` -/
+def call (B : UInt16) (fr : VP9Frame) : Pred.C12.Call := { mtu := B, frame := some fr.frame, desc := fr.desc }
+def frameIn (fr : VP9Frame) : FrameIn := { frame := fr.frame, samples := fr.samples, now := fr.now }
+end VP9Frame
 
 /-! ### the pipelines, instantiated (what the kinds `e2e.*` recompute) -/
 
